@@ -855,3 +855,16 @@ def _m_seen_base(mod):
         return False
 
     return mod if replace_in_func(mod, "flatten_extends", edit) else None
+
+
+@SPEC.mutant("nested instance gets the un-extended class as parent", TREE, "R07.12", "as parent")
+def _m_nested_parent(mod):
+    def edit(fn):
+        for st in ast.walk(fn):
+            if isinstance(st, ast.Assign) and isinstance(st.targets[0], ast.Subscript) and norm(st.targets[0].value) == "extended_orig_class.classes" \
+                    and isinstance(st.value, ast.Call) and len(st.value.args) == 3:
+                st.value.args[2] = ast.Name(id="orig_class", ctx=ast.Load())
+                return True
+        return False
+
+    return mod if replace_in_func(mod, "build_instance_tree", edit) else None
